@@ -325,9 +325,9 @@ class Report:
         if self.violations:
             os.makedirs(REPLAYS, exist_ok=True)
             seen = set()
-            for i, (sig, rep) in enumerate(self.violations[:20]):
+            for i, (sig, rep) in enumerate(self.violations):
                 key = json.dumps(sig, sort_keys=True)
-                if key in seen:
+                if key in seen or len(seen) >= 40:
                     continue
                 seen.add(key)
                 h = hashlib.sha1(key.encode()).hexdigest()[:10]
